@@ -165,6 +165,9 @@ pub struct ObjStmSpec {
     pub filter: StmFilter,
     /// white space after the last member (true) or the data ends flush with the member (false)
     pub trailing_ws: bool,
+    /// a superseded copy of the first member (same object number, another value) is left in front of
+    /// the members; the cross-reference entries name the real copies by index
+    pub stale_first: bool,
 }
 
 #[derive(Clone, Debug, PartialEq)]
@@ -398,13 +401,21 @@ pub fn write_doc(spec: &DocSpec) -> Written {
                 .collect();
             let mut bodies: Vec<u8> = vec![];
             let mut header = String::new();
+            let mut shift = 0;
+            if os.stale_first {
+                if let Some((n, _)) = members.first() {
+                    header.push_str(&format!("{} 0 ", n));
+                    write_val(&mut bodies, &Val::dict(vec![("Stale", Val::Int(-777))]));
+                    shift = 1;
+                }
+            }
             for (i, (n, v)) in members.iter().enumerate() {
-                if i > 0 {
+                if i + shift > 0 {
                     bodies.push(b'\n');
                 }
                 header.push_str(&format!("{} {} ", n, bodies.len()));
                 write_val(&mut bodies, v);
-                entries.insert(*n, Entry::Compressed { stm: os.num, idx: i });
+                entries.insert(*n, Entry::Compressed { stm: os.num, idx: i + shift });
             }
             if os.trailing_ws {
                 bodies.push(b'\n');
@@ -419,7 +430,7 @@ pub fn write_doc(spec: &DocSpec) -> Written {
             let (data, fname) = apply_filter(os.filter, &plain);
             let mut d: Dict = vec![
                 ("Type".into(), Val::name("ObjStm")),
-                ("N".into(), Val::Int(members.len() as i64)),
+                ("N".into(), Val::Int((members.len() + shift) as i64)),
                 ("First".into(), Val::Int(first as i64)),
             ];
             if let Some(f) = fname {
@@ -829,7 +840,7 @@ impl DocSpec {
                         Slot::RawCompressed { stm, idx } => json!({ "num": n, "raw_compressed": { "stm": stm, "idx": idx } }),
                     })
                     .collect();
-                let objstms: Vec<J> = r.objstms.iter().map(|o| json!({ "num": o.num, "filter": filter_name(o.filter), "trailing_ws": o.trailing_ws })).collect();
+                let objstms: Vec<J> = r.objstms.iter().map(|o| json!({ "num": o.num, "filter": filter_name(o.filter), "trailing_ws": o.trailing_ws, "stale_first": o.stale_first })).collect();
                 let style = match &r.style {
                     XrefStyle::Classic { cuts } => json!({ "classic": { "cuts": cuts } }),
                     XrefStyle::Stream { num, w, cuts, filter } => json!({ "stream": { "num": num, "w": w, "cuts": cuts, "filter": filter_name(*filter) } }),
@@ -858,7 +869,7 @@ impl DocSpec {
             }
             let mut objstms = vec![];
             for o in r.get("objstms")?.as_array()? {
-                objstms.push(ObjStmSpec { num: o.get("num")?.as_u64()? as u32, filter: filter_from(o.get("filter")?.as_str()?)?, trailing_ws: o.get("trailing_ws")?.as_bool()? });
+                objstms.push(ObjStmSpec { num: o.get("num")?.as_u64()? as u32, filter: filter_from(o.get("filter")?.as_str()?)?, trailing_ws: o.get("trailing_ws")?.as_bool()?, stale_first: o.get("stale_first").and_then(|x| x.as_bool()).unwrap_or(false) });
             }
             let st = r.get("style")?;
             let cuts = |x: &J| -> Option<Vec<u32>> { x.get("cuts")?.as_array()?.iter().map(|c| c.as_u64().map(|c| c as u32)).collect() };
@@ -935,7 +946,7 @@ impl Builder {
             let n = next;
             next += 1;
             stm_num = Some(n);
-            objstms.push(ObjStmSpec { num: n, filter: layout.objstm_filter, trailing_ws: layout.trailing_ws });
+            objstms.push(ObjStmSpec { num: n, filter: layout.objstm_filter, trailing_ws: layout.trailing_ws, stale_first: false });
         }
         let mut any_compressed = false;
         for (n, body) in self.objs {
